@@ -39,6 +39,9 @@ from .state import ParseStateStack
 type RuleOutcome = RuleResult | ParseException
 type MemoCache = dict[MemoKey, RuleOutcome]
 
+MAX_CONSTANT_ROUNDS = 16
+MAX_CONSTANT_LENGTH = 2**16
+
 
 class ParserEngine(ParserCore, CanParse):
     def parse(
@@ -313,7 +316,16 @@ class ParserEngine(ParserCore, CanParse):
 
         expression = Undefined
         result = literal
+        rounds = 0
         while result != expression:
+            # NOTE: text taken from the input may itself hold an interpolation
+            #   ('{y} ' bound to y), and then no round reaches a fixed point
+            rounds += 1
+            toolong = isinstance(result, str) and len(result) > MAX_CONSTANT_LENGTH
+            if rounds > MAX_CONSTANT_ROUNDS or toolong:
+                raise FailedSemantics(
+                    f'Error evaluating constant {literal!r}: no fixed point',
+                )
             expression = result
             if not isinstance(expression, str):
                 break
